@@ -22,7 +22,11 @@ Definition strip_plus (t : bytes) : bytes :=
 (* str::parse::<f32> of a lexed number, as the content model carries an f32 *)
 Definition fl_of_text (t : bytes) : fl :=
   let u := strip_plus t in
-  if memN 46 u then FReal u else FInt (Z_of_dec u).
+  if memN 46 u then FReal u
+  else
+    let z := Z_of_dec u in
+    (* "-0", "-000": negative zero *)
+    if Z.eqb z 0 && match u with c :: _ => c =? 45 | [] => false end then FReal neg_zero else FInt z.
 
 Fixpoint of_syn (v : Prim.prim) : res prim :=
   match v with
